@@ -1,1 +1,1 @@
-
+import Props.Auto
